@@ -20,19 +20,20 @@ import (
 )
 
 type Config struct {
-	Dir       string            // module directory under /repo
-	Pkg       string            // package pattern relative to Dir (".", "./internal/x")
-	Overlay   map[string][]byte // absolute path -> contents
-	Redirects map[string]string // full function name -> harness function name (in the main package)
-	Noops     []string
-	Merges    []string
-	DenyInit  []string
-	Solver    string
-	TimeoutMS int
-	Workers   int
-	Env       map[string]string
-	Log       io.Writer
-	BuildTags []string
+	Dir            string            // module directory under /repo
+	Pkg            string            // package pattern relative to Dir (".", "./internal/x")
+	Overlay        map[string][]byte // absolute path -> contents
+	Redirects      map[string]string // full function name -> harness function name (in the main package)
+	Noops          []string
+	Merges         []string
+	DenyInit       []string
+	Solver         string
+	TimeoutMS      int
+	Workers        int
+	Env            map[string]string
+	Log            io.Writer
+	BuildTags      []string
+	LenientSprintf bool
 }
 
 type Program struct {
@@ -105,22 +106,23 @@ func Load(cfg Config) (*Program, error) {
 // initialisation once.
 func (p *Program) NewMachine() (*Machine, error) {
 	m := &Machine{
-		prog:       p.Prog,
-		mainPkg:    p.Main,
-		globals:    make(map[*ssa.Global]*value),
-		poison:     make(map[*ssa.Global]string),
-		sizes:      &types.StdSizes{WordSize: 8, MaxAlign: 8},
-		tt:         NewTermTable(),
-		redirects:  map[string]*ssa.Function{},
-		noops:      map[string]bool{},
-		merges:     map[string]bool{},
-		env:        map[string]value{},
-		initFailed: map[*ssa.Package]string{},
-		funcsHit:   map[*ssa.Function]int{},
-		fnSize:     map[*ssa.Function]int{},
-		stubsHit:   map[string]int{},
-		denyInit:   map[string]bool{},
-		Log:        p.cfg.Log,
+		prog:           p.Prog,
+		mainPkg:        p.Main,
+		globals:        make(map[*ssa.Global]*value),
+		poison:         make(map[*ssa.Global]string),
+		sizes:          &types.StdSizes{WordSize: 8, MaxAlign: 8},
+		tt:             NewTermTable(),
+		redirects:      map[string]*ssa.Function{},
+		noops:          map[string]bool{},
+		merges:         map[string]bool{},
+		env:            map[string]value{},
+		initFailed:     map[*ssa.Package]string{},
+		funcsHit:       map[*ssa.Function]int{},
+		fnSize:         map[*ssa.Function]int{},
+		stubsHit:       map[string]int{},
+		denyInit:       map[string]bool{},
+		Log:            p.cfg.Log,
+		LenientSprintf: p.cfg.LenientSprintf,
 	}
 	for _, n := range defaultNoops {
 		m.noops[n] = true
